@@ -40,39 +40,51 @@ func resolveServicesEnvironment(dict map[string]any, environment types.Mapping) 
 		if !ok {
 			continue
 		}
-		if mapping, ok := serviceConfig["environment"].(map[string]any); ok {
-			// mapping syntax: `VAR:` without a value is the same request as `- VAR`
-			for name, value := range mapping {
-				if value != nil {
-					continue
-				}
-				if found, ok := environment[name]; ok {
-					mapping[name] = found
-				}
-			}
-			continue
+		if env, ok := serviceConfig["environment"]; ok {
+			serviceConfig["environment"] = resolveValueless(env, environment)
 		}
-		serviceEnv, ok := serviceConfig["environment"].([]any)
-		if !ok {
-			continue
-		}
-		envs := []any{}
-		for _, env := range serviceEnv {
-			varEnv, ok := env.(string)
-			if !ok {
-				continue
-			}
-			if found, ok := environment[varEnv]; ok {
-				envs = append(envs, fmt.Sprintf("%s=%s", varEnv, found))
-			} else {
-				// either does not exist or it was already resolved in interpolation
-				envs = append(envs, varEnv)
+		// build arguments without a value are requests to the environment as well
+		if build, ok := serviceConfig["build"].(map[string]any); ok {
+			if args, ok := build["args"]; ok {
+				build["args"] = resolveValueless(args, environment)
 			}
 		}
-		serviceConfig["environment"] = envs
 		services[service] = serviceConfig
 	}
 	dict["services"] = services
+}
+
+// resolveValueless fills in, from environment, the entries of a KEY[=VALUE] list or mapping which have no value
+func resolveValueless(entries any, environment types.Mapping) any {
+	switch v := entries.(type) {
+	case map[string]any:
+		// mapping syntax: `VAR:` without a value is the same request as `- VAR`
+		for name, value := range v {
+			if value != nil {
+				continue
+			}
+			if found, ok := environment[name]; ok {
+				v[name] = found
+			}
+		}
+		return v
+	case []any:
+		resolved := []any{}
+		for _, e := range v {
+			name, ok := e.(string)
+			if !ok {
+				continue
+			}
+			if found, ok := environment[name]; ok {
+				resolved = append(resolved, fmt.Sprintf("%s=%s", name, found))
+			} else {
+				// either does not exist or it was already resolved in interpolation
+				resolved = append(resolved, name)
+			}
+		}
+		return resolved
+	}
+	return entries
 }
 
 func resolveSecretsEnvironment(dict map[string]any, environment types.Mapping) {
